@@ -62,7 +62,7 @@ func checkC04(c *c04Case, o *core.Obs) error {
 	switch c.Source {
 	case "gen", "gen+alph", "gen+alphl":
 		bs := c.Prog.Build()
-		p := &stillParts{Bitstream: bs, W: c.Prog.W, H: c.Prog.H}
+		p := &stillParts{Bitstream: bs, W: c.Prog.W, H: c.Prog.H, RawToWitness: true}
 		if c.Source == "gen+alphl" {
 			ls, _ := c.AlphProg.Build()
 			alph := append([]byte{byte(1 | c.AlphFilter<<2 | c.AlphPre<<4)}, ls[5:]...) // headerless VP8L stream
